@@ -444,6 +444,17 @@ class Machine:
         raise KeyError(name)
 
     def lookup(self, name, env):
+        try:
+            return self.lookup0(name, env)
+        except Unsupported:
+            q = env.qualname if isinstance(env.qualname, str) and not env.qualname.startswith("spec:") else self.unit["qualname"]
+            for qual in (q, self.unit["qualname"]):
+                alias = self.ctx.alias_for(self.unit["module"], qual, name)
+                if alias:
+                    return self.lookup0(alias, env)
+            raise
+
+    def lookup0(self, name, env):
         for ov in reversed(self.overlay):
             if name in ov:
                 return ov[name]
